@@ -4,6 +4,7 @@ package prober
 import (
 	"context"
 	"fmt"
+	"math"
 	"strconv"
 	"strings"
 	"time"
@@ -68,6 +69,10 @@ func parseT4T7Latency(headers, trailers metadata.MD) (time.Duration, error) {
 		durationMillis, err := strconv.ParseInt(durationText, 10, 64)
 		if err != nil {
 			return 0, fmt.Errorf("failed to parse gfe latency: %v", err)
+		}
+		// A value that does not fit a time.Duration would wrap around in the multiplication below.
+		if durationMillis > math.MaxInt64/int64(time.Millisecond) || durationMillis < math.MinInt64/int64(time.Millisecond) {
+			return 0, fmt.Errorf("gfe latency out of range: %v ms", durationMillis)
 		}
 		return time.Duration(durationMillis) * time.Millisecond, nil
 	}
